@@ -58,18 +58,21 @@ Lose(i) == /\ Step /\ i \in 1..(Len(ok) - 1) /\ i > cursor
            /\ ok' = SubSeq(ok, 1, i - 1) \o SubSeq(ok, i + 1, Len(ok))
            /\ hole' = SubSeq(hole, 1, i - 1) \o <<TRUE>> \o SubSeq(hole, i + 2, Len(hole))
            /\ UNCHANGED <<mode, state, sid, stored, offered, nextId, downP, downD, cursor, nFail, good>>
-SwitchMode == /\ Step
-              /\ IF mode = "dr" THEN mode' = "majority" /\ UNCHANGED <<state, sid, stored, offered, nextId, ok, cursor, nFail>>
-                 ELSE mode' = "dr" /\ Switch("sync_recover", FALSE)
-              /\ UNCHANGED <<downP, downD, hole, good>>
+(* the administrator changes the replication mode; the switch back to dr-auto-sync persists sync_recover first, and *)
+(* when that write fails the mode stays what it was                                                              *)
+SwitchMode(fails) ==
+  /\ Step
+  /\ IF mode = "dr" THEN ~fails /\ mode' = "majority" /\ UNCHANGED <<state, sid, stored, offered, nextId, ok, cursor, nFail>>
+     ELSE Switch("sync_recover", fails) /\ mode' = (IF fails THEN mode ELSE "dr")
+  /\ UNCHANGED <<downP, downD, hole, good>>
 Next == (\E f \in BOOLEAN : Tick(f)) \/ (\E dc \in {"p", "d"} : StoreDown(dc) \/ StoreUp(dc))
-        \/ (\E i \in 1..MaxRegions : Report(i) \/ Split(i) \/ Lose(i)) \/ SwitchMode
+        \/ (\E i \in 1..MaxRegions : Report(i) \/ Split(i) \/ Lose(i)) \/ (\E f \in BOOLEAN : SwitchMode(f))
 Spec == Init /\ [][Next]_vars
 SyncOnlyAfterAll == good
 FreshId == sid < nextId /\ stored[2] < nextId
 PersistedBeforeServed == stored = <<state, sid>>
 OfferedBeforeServed == [][(sid' # sid) => offered' = <<state', sid'>>]_vars
-FailedPersistKeepsServed == [][(nFail' > nFail) => (state' = state /\ sid' = sid)]_vars
+FailedPersistKeepsServed == [][(nFail' > nFail) => (state' = state /\ sid' = sid /\ mode' = mode)]_vars
 AsyncOnlyWhen == [][(state # "async" /\ state' = "async") => (~CanSync /\ HasMajority /\ TimeoutPassed)]_vars
 RecoverOnlyWhen == [][(state = "async" /\ state' = "sync_recover") => (CanSync \/ mode # mode')]_vars
 =============================================================================
